@@ -288,10 +288,11 @@ func findEventTable(c *Ctx) (global *types.Var, entries []tableEntry, pos token.
 }
 
 func isNamed(t types.Type, pkg, name string) bool {
+	t = types.Unalias(t)
 	n, ok := t.(*types.Named)
 	if !ok {
 		if p, isP := t.(*types.Pointer); isP {
-			n, ok = p.Elem().(*types.Named)
+			n, ok = types.Unalias(p.Elem()).(*types.Named)
 		}
 		if !ok {
 			return false
